@@ -31,6 +31,8 @@ func init() {
 			{ID: "C10-R7", Title: "Spawn hands the new thread a copy of the arguments", Floor: 1, Run: spawnCopiesArgs},
 			{ID: "C10-R8", Title: "arguments of a spawned call are evaluated at the spawn site (partial mode off for operands)", Floor: 2, Run: partialModeOffForOperands},
 			{ID: "C10-R9", Title: "clones get their own copy of the mutex-guarded VM maps (shared with C09-R5)", Floor: 2, Run: c09r5},
+			{ID: "C10-R10", Title: "recover() is called by the deferred function itself (a panicking spawned call becomes the thread's error)", Floor: 3, Run: recoverIsDirectlyDeferred},
+			{ID: "C10-R11", Title: "the thread's call returns the spawned callable's result untouched", Floor: 1, Run: spawnedResultPassesThrough},
 		},
 	})
 }
